@@ -95,6 +95,22 @@ impl TypeCollector {
             .collect()
     }
 
+    /// Collect the given types together with every type reachable through their fields
+    pub fn collect_types_with_dependencies(
+        &self,
+        initial_types: &std::collections::HashSet<String>,
+        all_structs: &HashMap<String, StructInfo>,
+    ) -> HashMap<String, StructInfo> {
+        let mut used_types = initial_types.clone();
+        self.discover_nested_dependencies(initial_types, all_structs, &mut used_types);
+
+        all_structs
+            .iter()
+            .filter(|(name, _)| used_types.contains(*name))
+            .map(|(k, v)| (k.clone(), v.clone()))
+            .collect()
+    }
+
     /// Recursively discover nested dependencies
     fn discover_nested_dependencies(
         &self,
